@@ -74,4 +74,19 @@ CHECKS = {
         "note": "Trusted: rustc MIR and Rust's aliasing rules (mutation needs &mut; syn::File has no interior mutability); "
                 "prettyplease::unparse . syn::parse_file assumed stable on existing items.",
     },
+    "C15": {
+        "engine": "mirfacts",
+        "level": "other",
+        "ref": "DESIGN.md §5 C15",
+        "technique": "may-panic census over the call graph (class-hierarchy analysis) with dominating-guard discharge and a "
+                     "hand-audited triage table; progress-guard and provenance rules by path simulation",
+        "text": "Every panic-capable construct in the runtime crate that is reachable from the public API is enumerated from "
+                "MIR and must be class-discharged, discharged by a dominating guard on the same terms, or match an exact row "
+                "of the audited triage table; plus progress guards of the retry loops, char-boundary provenance of lexer "
+                "offsets, layout-parser constants, GSS index validity. A new unwrap/index/slice/arith site or a removed "
+                "guard is reported with its call site. Totality is decided modulo the listed invariants; termination of the "
+                "main loops is not decided.",
+        "note": "Trusted: rustc MIR (debug-assertion build of the generic code, pre-monomorphisation); invariant rows of "
+                "rules/tables/panic_runtime.json are human judgements, each with its reason in the evidence.",
+    },
 }
